@@ -251,6 +251,48 @@ def short_life_case(rng, material, mode):
     return c
 
 
+def fatigue_short_case(rng, material):
+    """lumped mode, one represented day, a FATIGUE-dominated worst point with a life of a few cycles: the strains are
+    scaled (bisection on the independent formulas) until the worst point collects 0.12-0.9 fatigue damage per cycle, the
+    time axis is shrunk until its creep damage is below 1e-6.  The ray N (Df, Dc) then meets the fatigue-side segment of
+    the envelope between N = 1 and N = 1/knee; rules that look at the creep-side segment first are exercised here only."""
+    c = gen_case(rng, regime="crossing", material=material, mode="lump", days=1, ntubes=1, period=24.0)
+    t = c["tubes"][0]
+    target = rng.uniform(0.12, 0.9)
+    base = np.array(t["strain"], dtype=float)
+
+    def worst(f):
+        t["strain"] = base * f
+        try:
+            d = indep_damages(c)[0]
+        except Exception:
+            return None
+        if d is None:
+            return None
+        v = float(np.max(d[1]))
+        return v if math.isfinite(v) else None
+
+    lo, hi = 2.0 ** -12, 2.0 ** 6
+    for _ in range(40):
+        mid = math.sqrt(lo * hi)
+        v = worst(mid)
+        if v is None or v > target:
+            hi = mid
+        else:
+            lo = mid
+    v = worst(lo)
+    if v is None:
+        t["strain"] = base
+        return c
+    d = indep_damages(c)[0]
+    cr = float(np.max(d[0]))
+    if cr > 1e-6 and math.isfinite(cr):
+        f = 2.0 ** math.floor(math.log2(1e-6 / cr))
+        t["times"] = np.asarray(t["times"], dtype=float) * f
+        c["period"] = float(c["period"] * f)
+    return c
+
+
 def tail_case(rng, material, mode):
     """a history that goes on after the last represented cycle boundary (a hold / shutdown tail that does not reach the
     next multiple of the period): the tail belongs to no represented day"""
